@@ -202,9 +202,9 @@ func HarnessC14Missing() {
 
 // HarnessC14MapMissing: MapPollard.GetMissingPositions + VerifyPartialProof on a partial forest after
 // an honest history.  For any ordered selection D of live leaves the reported positions must be exactly
-// RM's canonical proof positions of D that the forest does not store (read from its node map, in RM's
-// own numbering), ascending; supplying RM's hashes at exactly those positions makes VerifyPartialProof
-// accept.
+// RM's canonical proof positions of D that the forest neither stores nor can compute from what it stores
+// (in RM's own numbering), ascending; supplying RM's hashes at exactly those positions makes
+// VerifyPartialProof accept.
 func HarnessC14MapMissing() {
 	w := newWorld()
 	w.history("C14.history", false)
@@ -222,27 +222,60 @@ func HarnessC14MapMissing() {
 	got := m.GetMissingPositions(tg)
 	verifCheckOwned("C17.MapPollard.GetMissingPositions")
 	need, _ := v.proofIdx(didx)
-	var want []uint64
-	var wantHashes []Hash
-	for _, x := range need {
-		// the same node in the forest's own row numbering
+	// what the forest holds: the nodes it stores (read from its node map, in its own row numbering) and
+	// everything computable from them (both children held)
+	held := make([]bool, len(v.nodes))
+	for x := range v.nodes {
 		y := tv.nodeAt(refStart(v.nodes[x].row, tv.rows) + (v.nodes[x].pos - refStart(v.nodes[x].row, v.rows)))
-		stored := false
 		if y >= 0 {
-			_, stored = m.Nodes.Get(tv.nodes[y].pos)
+			_, held[x] = m.Nodes.Get(tv.nodes[y].pos)
 		}
-		if !stored {
+	}
+	stored := make([]bool, len(held))
+	copy(stored, held)
+	for round := 0; round <= int(v.rows); round++ {
+		for x := range v.nodes {
+			if sb := v.nodes[x].sib; sb >= 0 && held[x] && held[sb] {
+				held[v.nodes[x].parent] = true
+			}
+		}
+	}
+	var want, wantStored []uint64
+	var wantHashes, wantStoredHashes []Hash
+	for _, x := range need {
+		if !held[x] {
 			want = append(want, v.nodes[x].pos)
 			wantHashes = append(wantHashes, v.nodes[x].hash)
 		}
+		if !stored[x] {
+			wantStored = append(wantStored, v.nodes[x].pos)
+			wantStoredHashes = append(wantStoredHashes, v.nodes[x].hash)
+		}
 	}
-	verifAssert(len(got) == len(want), "C14.MapMissing.count")
+	// Open finding F-C14-1: the map forest reports (and VerifyPartialProof asks for) needed positions that
+	// it does not store even when they are computable from nodes it holds.  Carve-out: the answer is exactly
+	// the not-stored needed positions and differs from the strict answer only by such computable ones.
+	gotIsStoredOnly := len(got) == len(wantStored)
+	if gotIsStoredOnly {
+		for i := range wantStored {
+			if got[i] != wantStored[i] {
+				gotIsStoredOnly = false
+			}
+		}
+	}
+	kf := gotIsStoredOnly && len(wantStored) != len(want)
+	verifAssertKF(len(got) == len(want), "C14.MapMissing.count", "F-C14-1", kf)
 	if len(got) == len(want) {
 		for i := range want {
 			verifAssert(got[i] == want[i], "C14.MapMissing.position")
 		}
 	}
 	err := m.VerifyPartialProof(tg, hd, wantHashes, false)
-	verifAssert(err == nil, "C14.MapMissing.completed-proof-verifies")
+	verifAssertKF(err == nil, "C14.MapMissing.completed-proof-verifies", "F-C14-1", kf)
+	if kf {
+		// inside the carve-out the forest must at least be consistent with its own answer
+		err = m.VerifyPartialProof(tg, hd, wantStoredHashes, false)
+		verifAssert(err == nil, "C14.MapMissing.reported-positions-suffice")
+	}
 	verifReach("C14.MapMissing")
 }
